@@ -21,6 +21,7 @@
 #include <cstdlib>
 #include <cstdlib>
 #include <deque>
+#include <fstream>
 #include <locale>
 #include <stdexcept>
 #include <functional>
@@ -1063,6 +1064,32 @@ void run_line(std::ostream &out, world &w, std::string const &line)
 
 }  // namespace
 
+namespace {
+
+// A host program whose namespace-scope objects use the library in their
+// constructors: the script named by VERIF_EARLY_SCRIPT is run during static
+// initialisation - this translation unit is linked first, so before the library's own
+// namespace-scope objects are initialised - and its observations are printed by
+// `impl_driver early`.
+struct early_run
+{
+    early_run()
+    {
+        char const *path = std::getenv("VERIF_EARLY_SCRIPT");
+        if (path == nullptr) return;
+        std::ifstream in(path);
+        std::ostringstream o;
+        world w;
+        std::string line;
+        while (std::getline(in, line)) run_line(o, w, line);
+        output = o.str();
+    }
+    std::string output;
+};
+early_run const the_early_run;
+
+}  // namespace
+
 // a host program that has installed its own global locale: digits grouped in
 // threes, a decimal comma - what "de_DE"-like locales do to iostreams
 struct grouping_punct : std::numpunct<char>
@@ -1088,6 +1115,11 @@ int main(int argc, char **argv)
     // the stdout modes run like an ordinary program (default stream
     // synchronisation); only the observation modes untie the streams for speed
     if (mode == "run" || mode == "threads") std::ios::sync_with_stdio(false);
+    if (mode == "early")
+    {
+        std::cout << the_early_run.output;
+        return 0;
+    }
     if (mode == "run")
     {
         world w;
